@@ -113,3 +113,30 @@ pub fn rt_panic() -> !
     requires false
 { unimplemented!() }
 pub type ForceFut = Either<Ready<RuntimeResult<Pushed, PanicMsg>>, Either<Evaluating, Waiting>>;
+
+// ---- the success arm of the computation
+pub struct OpaqueValue { pub v: Value }          // OpaqueValue<RootedThread, A>: the computation's result, rooted in the forcing thread
+impl OpaqueValue {
+    pub fn get_value(&self) -> (r: &Value) ensures *r == self.v { &self.v }
+}
+pub struct RootedValue { pub v: Value }
+impl RootedValue {
+    pub fn get_variant(&self) -> (r: Variants) ensures r.v == self.v { Variants { v: self.v.clone_unrooted() } }
+}
+pub uninterp spec fn owned_by(v: Value, thread: usize) -> bool;      // v lives in a heap the thread at this address may point into
+impl Thread {
+    // ASSUMED (share-or-copy guard proved in the C13 clone unit): a structurally equal value the RECEIVER (`self`) may hold
+    #[verifier::external_body]
+    pub fn deep_clone_value(&self, owner: &RootedThread, value: &Value) -> (r: Result<RootedValue, VmError>)
+        ensures r is Ok ==> same_value(r->Ok_0.v, *value) && owned_by(r->Ok_0.v, addr_of(*self))
+    { unimplemented!() }
+}
+impl Tx {
+    // firing the channel succeeds as long as a receiver is alive (the Shared receiver stored next to the sender is)
+    #[verifier::external_body]
+    pub fn send(self, x: ()) -> (r: Result<(), ()>) ensures r is Ok { unimplemented!() }
+}
+#[verifier::external_body]
+pub fn ctx_push_rooted(vm: &RootedThread, value: &Value) { unimplemented!() }
+#[verifier::external_body]
+pub fn clone_error_msg(e: VmError) -> PanicMsg { unimplemented!() }
